@@ -14,6 +14,11 @@ Streams
   voff   : the REAL Nifti1Header.write_to on extensions whose content is a length-only stand-in: vox_offset field
            and end of the extension block for totals up to 2^33 (float32 precision of the NIfTI-1 field)
   f32    : the model's float32 rounding / successor against NumPy (and, in the oracle, exact arithmetic)
+  xst    : histories over extension OBJECTS and HEADERS (Model/C11_State): extensions built from bytes or from a runtime
+           object with three codecs (identity, inverse pair, non-inverse normalising pair), get_content / content /
+           size reads, in-place edits, objects shared between headers, header copy / from_header between the four
+           NIfTI header classes, images made from headers, explicit offsets, header.write_to and image saves (several
+           per object, edits in between); every step observed; oracle = independent reference semantics (XRef)
 """
 import ast
 import inspect
@@ -63,6 +68,19 @@ THEOREMS = [
     'Nb.C11.data_independent_pair',
     'Nb.C11.ext_gap_orig_counterexample',
     'Nb.C11.ext_gap_fixed_example',
+    'Nb.C11.World.step_read_shown',
+    'Nb.C11.ext_object_state',
+    'Nb.C11.write_emits_shown',
+    'Nb.C11.save_emits_shown',
+    'Nb.C11.history_save_load',
+    'Nb.C11.save_restores_header',
+    'Nb.C11.header_write_keeps_lists',
+    'Nb.C11.edit_shows',
+    'Nb.C11.conversion_table_ok',
+    'Nb.C11.conversion_carries_extensions',
+    'Nb.C11.lists_independent',
+    'Nb.C11.write_plan_ok',
+    'Nb.C11.pair_extensions_run_to_eof',
 ]
 ASSUMPTIONS = [
     'hand-written Lean model (Model/C11.lean) of the CONTROL FLOW of NiftiExtension.write_to, Nifti1Extensions.write_to/'
@@ -89,8 +107,17 @@ ASSUMPTIONS = [
     'the voff stream replaces the content of an extension by a length-only stand-in and the file by a counting sink '
     '(real header / extension code otherwise); theorem sizes_only_agrees ties its model side to the full save',
     'file objects are modelled as seekable byte stores with zero fill on seek past the end (BytesIO / POSIX files)',
+    'Model/C11_State.lean: hand-written heap-of-extension-objects / list-of-references model of Nifti1Header.copy, '
+    'from_header (AnalyzeHeader.from_header own-class / fresh-native branch, vox_offset carried through the analyze map, '
+    'check_fix refusing an offset below single_vox_offset), AnalyzeImage.__init__ offset reset, Nifti1Header.write_to '
+    'leaving the chosen offset in the field and AnalyzeImage.to_file_map restoring it; tied by the xst stream. The bodies '
+    'of _sync / get_object / content, the header-class conversion table and the call order of NiftiExtension.write_to '
+    'are GENERATED (Generated/C11State.lean) by a second small translator in regen_state() (trusted). _mangle/_unmangle '
+    'are uninterpreted functions in every theorem; the driver instantiates three concrete codecs matched by three '
+    'harness subclasses of Nifti1Extension. The header keeps the value last ASSIGNED to vox_offset; re-assigning a value '
+    'read back from the field is assumed to store the same value (float32 idempotence; xst offsets are < 2^20).',
 ]
-RULE = ('tail16: last extension of exactly 16 bytes (content 0..9) x NIfTI-1/2 x single/pair x {<,>} x 0-2 extensions in '
+RULE = ('xst: random histories of 6-30 operations over 1-2 initial headers (4 NIfTI header classes x {<,>}), 1-3 initial extensions (from bytes / from object, 3 codecs, 9 codes), then reads (get_content, content, size, total), in-place edits that extend / replace the object (lengths crossing 16-byte borders), deletions, objects shared into another header, copy, from_header and image construction into any of the 4 classes, explicit vox_offset (0, min, min+16k, min-16, odd, below header, 352, 544), header.write_to, image save + load; always ending with a save of up to two images (one of them twice with an edit in between) and a header-level write; non-trivial when it contains a save; tail16: last extension of exactly 16 bytes (content 0..9) x NIfTI-1/2 x single/pair x {<,>} x 0-2 extensions in '
         'front x offset {auto, min, min+16, min+32}; hist: multi-step histories - extensions with a mutable runtime '
         'object (generic bytearray object, CIFTI-2 header, pydicom Dataset) edited IN PLACE after construction / after '
         'a real save+load (content grown or shrunk across 16-byte boundaries, optionally after an earlier size query), '
@@ -284,6 +311,13 @@ def translate_rules():
                  and _Tr().lit(n.value) is None], 'computed extsize in Nifti1Header.from_fileobj')
     add('extSize', ['vox_offset', 'tell'], 'Int',
         _Tr({"hdr._structarr['vox_offset']": 'vox_offset', 'fileobj.tell()': 'tell'}).expr(asg.value), asg)
+    # the pair branch: `if not klass.is_single: extsize = <literal> else: extsize = <computed>`
+    br = _only([n for n in ast.walk(fn) if isinstance(n, ast.If) and ast.unparse(n.test) == 'not klass.is_single'],
+               '`if not klass.is_single:` in Nifti1Header.from_fileobj')
+    if not (len(br.body) == 1 and isinstance(br.body[0], ast.Assign) and ast.unparse(br.body[0].targets[0]) == 'extsize'
+            and _Tr().lit(br.body[0].value) is not None and len(br.orelse) == 1 and br.orelse[0] is asg):
+        raise Untranslatable('pair / single branches of extsize in Nifti1Header.from_fileobj have an unexpected shape')
+    add('pairExtSize', [], 'Int', _Tr().expr(br.body[0].value), br.body[0])
     # ---- Nifti1Header.write_to
     fn = _fn_ast(nifti1.Nifti1Header.write_to)
     top = fn.body[0]
@@ -320,6 +354,219 @@ def translate_rules():
     add('padBytes', ['extstart', 'rawsize', 'tell'], 'Int',
         _Tr({'extstart': 'extstart', 'rawsize': 'rawsize', 'fileobj.tell()': 'tell'}).expr(pad.value), pad)
     return out
+
+
+# ---- object-state methods of NiftiExtension (`_sync`, `get_object`, `content`) -> Lean state transformers ----------
+
+STATE_FIELDS = {'_raw': 'bytes', '_object': 'optional'}
+
+
+class _StateTr:
+    """Translate a method of NiftiExtension that only touches `self._raw` (bytes) and `self._object` (None or the
+    runtime object) into a Lean function on `ExtState Obj`.  Statements: `if self.F is [not] None: <stmts>` (no
+    else), `self.F = self._mangle(<e>) | self._unmangle(<e>) | self.G`, `self._sync()`, `return self.F`.
+    A field of optional type is only ever READ where the control flow has established that it is not None (inside
+    `is not None`, after an assignment): that is what makes `return self._object` well typed."""
+
+    def __init__(self):
+        self.k = 0
+
+    def fresh(self, p):
+        self.k += 1
+        return f'{p}{self.k}'
+
+    def field(self, n):
+        if isinstance(n, ast.Attribute) and isinstance(n.value, ast.Name) and n.value.id == 'self' \
+                and n.attr in STATE_FIELDS:
+            return n.attr
+        return None
+
+    def expr(self, n, env):
+        f = self.field(n)
+        if f is not None:
+            if STATE_FIELDS[f] == 'optional':
+                if env.get(f) is None:
+                    raise Untranslatable(f'self.{f} read where it may be None')
+                return env[f], 'obj'
+            return f's.{f}', 'bytes'
+        if isinstance(n, ast.Call) and isinstance(n.func, ast.Attribute) and isinstance(n.func.value, ast.Name) \
+                and n.func.value.id == 'self' and n.func.attr in ('_mangle', '_unmangle') and len(n.args) == 1 \
+                and not n.keywords:
+            a, t = self.expr(n.args[0], env)
+            if n.func.attr == '_mangle':
+                if t != 'obj':
+                    raise Untranslatable('_mangle applied to bytes')
+                return f'(mangle {a})', 'bytes'
+            if t != 'bytes':
+                raise Untranslatable('_unmangle applied to an object')
+            return f'(unmangle {a})', 'obj'
+        raise Untranslatable('state expression ' + ast.unparse(n))
+
+    def block(self, stmts, env, ind, returns):
+        pad = '  ' * ind
+        if not stmts:
+            if returns is not None:
+                raise Untranslatable('method falls off its end but must return a value')
+            return pad + 's\n'
+        st, rest = stmts[0], stmts[1:]
+        if isinstance(st, ast.Return):
+            if returns is None or st.value is None or rest:
+                raise Untranslatable('return ' + ast.unparse(st))
+            v, t = self.expr(st.value, env)
+            if t != returns:
+                raise Untranslatable(f'returns {t}, expected {returns}')
+            return pad + f'(s, {v})\n'
+        if isinstance(st, ast.Expr) and ast.unparse(st.value) == 'self._sync()':
+            env2 = {k: None for k in env}          # nothing is known about the optional fields after a call
+            return pad + 'let s := sync mangle unmangle s\n' + self.block(rest, env2, ind, returns)
+        if isinstance(st, ast.Assign) and len(st.targets) == 1 and self.field(st.targets[0]):
+            f = self.field(st.targets[0])
+            v, t = self.expr(st.value, env)
+            want = 'obj' if STATE_FIELDS[f] == 'optional' else 'bytes'
+            if t != want:
+                raise Untranslatable(f'self.{f} assigned a value of type {t}')
+            b = self.fresh('v')
+            env2 = dict(env)
+            out = pad + f'let {b} := {v}\n'
+            if want == 'obj':
+                out += pad + f'let s := {{ s with {f} := some {b} }}\n'
+                env2[f] = b
+            else:
+                out += pad + f'let s := {{ s with {f} := {b} }}\n'
+            return out + self.block(rest, env2, ind, returns)
+        if isinstance(st, ast.If) and not st.orelse and isinstance(st.test, ast.Compare) and len(st.test.ops) == 1 \
+                and isinstance(st.test.ops[0], (ast.Is, ast.IsNot)) and isinstance(st.test.comparators[0], ast.Constant) \
+                and st.test.comparators[0].value is None and self.field(st.test.left) \
+                and STATE_FIELDS[self.field(st.test.left)] == 'optional':
+            f = self.field(st.test.left)
+            b = self.fresh('o')
+            env_some, env_none = dict(env), dict(env)
+            env_some[f], env_none[f] = b, None
+            if isinstance(st.test.ops[0], ast.IsNot):
+                some_b = self.block(list(st.body) + rest, env_some, ind + 2, returns)
+                none_b = self.block(rest, env_none, ind + 2, returns)
+            else:
+                some_b = self.block(rest, env_some, ind + 2, returns)
+                none_b = self.block(list(st.body) + rest, env_none, ind + 2, returns)
+            return (pad + f'match s.{f} with\n' + pad + f'| some {b} =>\n' + some_b + pad + '| none =>\n' + none_b)
+        raise Untranslatable('state statement ' + ast.unparse(st).split('\n')[0])
+
+    def method(self, fn, returns):
+        stmts = list(fn.body)
+        if stmts and isinstance(stmts[0], ast.Expr) and isinstance(stmts[0].value, ast.Constant) \
+                and isinstance(stmts[0].value.value, str):
+            stmts = stmts[1:]
+        return self.block(stmts, {f: None for f, t in STATE_FIELDS.items() if t == 'optional'}, 1, returns)
+
+
+HEADER_CLASS_NAMES = ('Nifti1Header', 'Nifti1PairHeader', 'Nifti2Header', 'Nifti2PairHeader')
+
+
+def _header_classes():
+    from nibabel import nifti1, nifti2
+    return [nifti1.Nifti1Header, nifti1.Nifti1PairHeader, nifti2.Nifti2Header, nifti2.Nifti2PairHeader]
+
+
+def conversion_table():
+    """which header-class conversions carry the extension list, read off the class hierarchy and the AST of the
+    methods involved (no code is run): `klass.from_header(h)` is `h.copy()` for the own class (AnalyzeHeader.from_header,
+    `type(header) == klass`) and otherwise ends in `if isinstance(header, Nifti1Header): new_hdr.extensions[:] =
+    header.extensions[:]`; `copy()` hands `self.extensions` to `__init__`, which builds a new `exts_klass` list."""
+    from nibabel import nifti1, analyze
+    N1 = nifti1.Nifti1Header
+    fh = _fn_ast(N1.from_header.__func__)
+    body = [s for s in fh.body if not (isinstance(s, ast.Expr) and isinstance(s.value, ast.Constant))]
+    fh_ok = (len(body) == 3 and ast.unparse(body[0]) == 'new_hdr = super().from_header(header, check)'
+             and ast.unparse(body[1]) == 'if isinstance(header, Nifti1Header):\n    new_hdr.extensions[:] = header.extensions[:]'
+             and ast.unparse(body[2]) == 'return new_hdr')
+    cp = _fn_ast(N1.copy)
+    cbody = [s for s in cp.body if not (isinstance(s, ast.Expr) and isinstance(s.value, ast.Constant))]
+    cp_ok = (len(cbody) == 1 and
+             ast.unparse(cbody[0]) == 'return self.__class__(self.binaryblock, self.endianness, False, self.extensions)')
+    ini = _fn_ast(N1.__init__)
+    ini_ok = any(ast.unparse(s) == 'self.extensions = self.exts_klass(extensions)' for s in ini.body)
+    afh = ast.unparse(_fn_ast(analyze.AnalyzeHeader.from_header.__func__))
+    own_ok = 'if type(header) == klass:\n        obj = header.copy()' in afh
+    rows, classes = [], []
+    for k in _header_classes():
+        fmt = {348: 1, 540: 2}.get(k.sizeof_hdr)
+        if fmt is None or type(k.is_single) is not bool:
+            raise Untranslatable(f'header class {k.__name__}: sizeof_hdr {k.sizeof_hdr!r} is_single {k.is_single!r}')
+        classes.append((k.__name__, fmt, k.is_single))
+    for src in _header_classes():
+        for dst in _header_classes():
+            uses_n1 = dst.from_header.__func__ is N1.from_header.__func__ and issubclass(src, N1)
+            if src is dst:
+                carried = own_ok and cp_ok and ini_ok and src.copy is N1.copy and src.__init__ is N1.__init__ \
+                    and uses_n1 and fh_ok
+            else:
+                carried = uses_n1 and fh_ok and dst.__init__ is N1.__init__
+            if carried:
+                rows.append((src.__name__, dst.__name__))
+    return classes, rows
+
+
+def write_to_plan():
+    """the calls of NiftiExtension.write_to that decide WHAT is written, in source order"""
+    from nibabel import nifti1
+    fn = _fn_ast(nifti1.NiftiExtension.write_to)
+    plan = []
+    for n in ast.walk(fn):
+        pass
+    for st in fn.body:
+        for n in ast.walk(st):
+            if isinstance(n, ast.Call):
+                src = ast.unparse(n)
+                if src.startswith('fileobj.write(') or src in ('self.get_sizeondisk()', 'self._sync()'):
+                    plan.append(src)
+    if any('"' in p_ or '\\' in p_ for p_ in plan):
+        raise Untranslatable('quote in write_to plan')
+    return plan
+
+
+GEN_STATE_PATH = os.path.join(common.LEAN, 'NibabelModel', 'Generated', 'C11State.lean')
+
+
+def regen_state():
+    from nibabel import nifti1
+    E = nifti1.NiftiExtension
+    if E.get_content is not E.get_object:
+        raise Untranslatable('get_content is no longer an alias of get_object')
+    tr = _StateTr()
+    sync = tr.method(_fn_ast(E._sync), None)
+    getobj = tr.method(_fn_ast(E.get_object), 'obj')
+    content = tr.method(_fn_ast(E.content.fget), 'bytes')
+    classes, rows = conversion_table()
+    plan = write_to_plan()
+    sig = '{Obj : Type} (mangle : Obj → List Nat) (unmangle : List Nat → Obj) (s : ExtState Obj)'
+    L = ['/-! GENERATED by harness/props/c11.py regen() from the working tree of nibabel (nifti1.py, nifti2.py, analyze.py).',
+         '    Do not edit: rewritten on every run of `./check C11`. Core Lean only. -/',
+         'set_option linter.unusedVariables false',
+         'namespace Nb.Gen.C11.State', '',
+         '/-- the two attributes of a `NiftiExtension` the methods below touch -/',
+         'structure ExtState (Obj : Type) where',
+         '  _raw : List Nat',
+         '  _object : Option Obj', '',
+         '/-- `NiftiExtension._sync` -/',
+         f'def sync {sig} : ExtState Obj :=', sync,
+         '/-- `NiftiExtension.get_object` (= `get_content`) -/',
+         f'def getObject {sig} : ExtState Obj × Obj :=', getobj,
+         '/-- `NiftiExtension.content` -/',
+         f'def content {sig} : ExtState Obj × List Nat :=', content,
+         '/-- NIfTI header classes: (name, format 1/2 from `sizeof_hdr`, `is_single`) -/',
+         'def headerClasses : List (String × Nat × Bool) :=',
+         '  [' + ', '.join(f'("{n}", {f}, {"true" if s_ else "false"})' for n, f, s_ in classes) + ']', '',
+         '/-- (source class, target class) for which `target.from_header(source_header)` carries the extension list',
+         '    (class hierarchy + shape of `Nifti1Header.from_header` / `copy` / `__init__`, `AnalyzeHeader.from_header`) -/',
+         'def carriesExt : List (String × String) :=',
+         '  [' + ', '.join(f'("{a}", "{b}")' for a, b in rows) + ']', '',
+         '/-- `NiftiExtension.write_to`: the size query and the writes, in source order -/',
+         'def writeToPlan : List String :=',
+         '  [' + ', '.join(f'"{p_}"' for p_ in plan) + ']', '',
+         'end Nb.Gen.C11.State', '']
+    common.write_if_changed(GEN_STATE_PATH, '\n'.join(L))
+    return ['Generated.C11State.sync-getObject-content', 'Generated.C11State.header-conversion-table',
+            'Generated.C11State.writeToPlan']
 
 
 def regen():
@@ -368,7 +615,7 @@ def regen():
     os.makedirs(os.path.dirname(GEN_PATH), exist_ok=True)
     common.write_if_changed(GEN_PATH, '\n'.join(L))
     return ['Generated.C11.getSizeondisk', 'Generated.C11.header-constants', 'Generated.C11.extensionCodes',
-            'Generated.C11.reader-writer-rules']
+            'Generated.C11.reader-writer-rules'] + regen_state()
 
 
 # =====================================================================================================
@@ -434,7 +681,17 @@ def mk_f32(n, nxt=False):
     return Case(f'C11 {op} {n}', {'op': op, 'n': n, 'stream': 'f32'}, (op, n), 'f32')
 
 
+def mk_xst(ops, data_hex='0102030405'):
+    """ops: list of token lists (strings / ints), see Driver/C11.lean `parseOp?`"""
+    toks = [','.join(str(t) for t in op) for op in ops]
+    line = f'C11 xst {"L" if NATIVE == "<" else "B"} {len(toks)}' + ''.join(' ' + t for t in toks)
+    return Case(line, {'op': 'xst', 'ops': [list(op) for op in ops], 'data': data_hex, 'stream': 'xst'},
+                ('xst', tuple(toks)) if any(op[0] in ('wh', 'wi') for op in ops) else None, 'xst')
+
+
 def case_from_data(d):
+    if d['op'] == 'xst':
+        return mk_xst(d['ops'], d.get('data', '0102030405'))
     if d['op'] == 'voff':
         return mk_voff(d['fmt'], d['kind'], d['off'], d['lens'])
     if d['op'] in ('f32', 'f32n'):
@@ -755,8 +1012,150 @@ def impl_voff(case):
     return f'ok {int(vox)} {f.pos}'
 
 
+# ---- xst: histories over extension objects and headers ------------------------------------------------------------
+
+_CODEC_CLASSES = None
+
+
+def _codec_classes():
+    """extension classes with a MUTABLE runtime object and three different codecs (driver: `codec?`)"""
+    global _CODEC_CLASSES
+    from nibabel import nifti1
+    if _CODEC_CLASSES is None or _CODEC_CLASSES[0].__mro__[1] is not nifti1.Nifti1Extension:
+        class IdExt(nifti1.Nifti1Extension):
+            def _unmangle(self, value):
+                return bytearray(value)
+
+            def _mangle(self, value):
+                return bytes(value)
+
+        class RevExt(nifti1.Nifti1Extension):
+            def _unmangle(self, value):
+                return bytearray(bytes(value)[::-1])
+
+            def _mangle(self, value):
+                return bytes(value)[::-1]
+
+        class NormExt(nifti1.Nifti1Extension):
+            def _unmangle(self, value):
+                return bytearray(b for b in bytes(value) if b != 32)
+
+            def _mangle(self, value):
+                return bytes(value) + b'\n'
+        _CODEC_CLASSES = (IdExt, RevExt, NormExt)
+    return _CODEC_CLASSES
+
+
+XST_CLASSES = {'Nifti1Header': (1, 's'), 'Nifti1PairHeader': (1, 'p'), 'Nifti2Header': (2, 's'),
+               'Nifti2PairHeader': (2, 'p')}
+
+
+def impl_xst(case):
+    from nibabel import nifti1
+    d = case.data
+    data = unhx(d['data'])
+    arr = np.frombuffer(data, dtype=np.uint8)
+    aff = np.diag([2.0, 3.0, 4.0, 1.0])
+    hdrs, imgs, outs = [], {}, []
+    codecs = _codec_classes()
+    for op in d['ops']:
+        k = op[0]
+        try:
+            if k == 'nh':
+                klass, _ = _klasses(*XST_CLASSES[op[1]])
+                hdrs.append(klass.header_class(endianness={'L': '<', 'B': '>'}[op[2]]))
+                hdrs[-1].set_data_dtype(np.uint8)
+                o = 'ok'
+            elif k == 'nr':
+                hdrs[op[1]].extensions.insert(op[2], codecs[op[3]](int(op[4]), unhx(op[5])))
+                o = 'ok'
+            elif k == 'no':
+                hdrs[op[1]].extensions.insert(op[2], codecs[op[3]](int(op[4]), object=bytearray(unhx(op[5]))))
+                o = 'ok'
+            elif k == 'go':
+                o = 'o=' + hx(bytes(hdrs[op[1]].extensions[op[2]].get_content()))
+            elif k == 'ed':
+                hdrs[op[1]].extensions[op[2]].get_content()[:] = unhx(op[3])
+                o = 'ok'
+            elif k == 'ea':
+                hdrs[op[1]].extensions[op[2]].get_content().extend(unhx(op[3]))
+                o = 'ok'
+            elif k == 'ct':
+                o = 'b=' + hx(bytes(hdrs[op[1]].extensions[op[2]].content))
+            elif k == 'sz':
+                o = 'n=%d' % int(hdrs[op[1]].extensions[op[2]].get_sizeondisk())
+            elif k == 'tt':
+                o = 'n=%d' % int(hdrs[op[1]].extensions.get_sizeondisk())
+            elif k == 'dl':
+                del hdrs[op[1]].extensions[op[2]]
+                o = 'ok'
+            elif k == 'sh':
+                hdrs[op[3]].extensions.insert(op[4], hdrs[op[1]].extensions[op[2]])
+                o = 'ok'
+            elif k == 'cp':
+                hdrs.append(hdrs[op[1]].copy())
+                o = 'ok'
+            elif k == 'fh':
+                klass, _ = _klasses(*XST_CLASSES[op[2]])
+                hdrs.append(klass.header_class.from_header(hdrs[op[1]]))
+                o = 'ok'
+            elif k == 'im':
+                klass, _ = _klasses(*XST_CLASSES[op[2]])
+                img = klass(arr, aff, header=hdrs[op[1]])
+                imgs[len(hdrs)] = (img, klass)
+                hdrs.append(img.header)
+                o = 'ok'
+            elif k == 'so':
+                hdrs[op[1]]['vox_offset'] = op[2]
+                o = 'ok'
+            elif k == 'wh':
+                h = hdrs[op[1]]
+                fmt = 1 if h.sizeof_hdr == 348 else 2
+                f = io.BytesIO()
+                h.write_to(f)
+                raw = f.getvalue()
+                fo, c, w = VOX_FIELD[fmt]
+                vox = struct.unpack(h.endianness + c, raw[fo:fo + w])[0]
+                o = f'H off={int(vox)} hdr={hx(raw[h.template_dtype.itemsize:])}' if vox == int(vox) else 'ERR:nonintegral-vox-offset'
+            elif k == 'wi':
+                img, klass = imgs[op[1]]
+                h = img.header
+                fmt = 1 if h.sizeof_hdr == 348 else 2
+                fm = klass.make_file_map()
+                for kk in fm:
+                    fm[kk].fileobj = io.BytesIO()
+                img.to_file_map(fm)
+                raws = {kk: fm[kk].fileobj.getvalue() for kk in fm}
+                pair = 'header' in raws and raws['header'] is not raws['image'] and not h.is_single
+                hraw = raws['header'] if pair else raws['image']
+                fo, c, w = VOX_FIELD[fmt]
+                vox = struct.unpack(h.endianness + c, hraw[fo:fo + w])[0]
+                hsz = h.template_dtype.itemsize
+                o = f'W off={int(vox)} hdr={hx(hraw[hsz:])} img={hx(raws["image"]) if pair else "-"}'
+                try:
+                    fm2 = klass.make_file_map()
+                    for kk in fm2:
+                        fm2[kk].fileobj = io.BytesIO(raws[kk])
+                    limg = klass.from_file_map(fm2)
+                    exts = [(int(e.get_code()), bytes(e.content)) for e in limg.header.extensions]
+                    got = np.asanyarray(limg.dataobj.get_unscaled())
+                    o += f' R exts={_ext_list(exts)} off={int(limg.dataobj.offset)} data={hx(got.astype(np.uint8).tobytes())}'
+                except Exception as e:
+                    o += ' R ' + _err(e)
+            else:
+                raise ValueError(op)
+        except (IndexError, KeyError, ValueError, TypeError, AttributeError):
+            raise
+        except Exception as e:
+            o = _err(e)
+        outs.append(o)
+    return ' | '.join(outs)
+
+
 def impl(case):
     d = case.data
+    if d['op'] == 'xst':
+        return impl_xst(case)
     if d['op'] == 'voff':
         return impl_voff(case)
     if d['op'] == 'f32':
@@ -982,8 +1381,155 @@ def oracle_f32(case, out):
     return None
 
 
+class XRef:
+    """Reference semantics of a history, at the level the property speaks about: every extension has ONE current
+    value (the bytes it was given, or the runtime object it was given / that was last produced from it and edited);
+    what it shows is that value serialised; sizes, offsets and the bytes saved are those of the NIfTI layout
+    (`need_size`, `ser_bytes`) for the values shown at the moment of the save.  No cached serialisation exists here.
+    Also used by the generator to keep indices valid."""
+
+    MANGLE = (bytes, lambda o: bytes(o)[::-1], lambda o: bytes(o) + b'\n')
+    UNMANGLE = (bytes, lambda b: bytes(b)[::-1], lambda b: bytes(x for x in b if x != 32))
+    PROPERTY_OPS = ('ct', 'sz', 'tt', 'wh', 'wi')
+
+    def __init__(self, data=b'\x01\x02\x03\x04\x05'):
+        self.cells, self.hdrs, self.data = [], [], data
+
+    def shown(self, r):
+        c = self.cells[r]
+        return c['val'] if c['kind'] == 'raw' else self.MANGLE[c['codec']](c['val'])
+
+    def to_obj(self, r):
+        c = self.cells[r]
+        if c['kind'] == 'raw':
+            c['kind'], c['val'] = 'obj', self.UNMANGLE[c['codec']](c['val'])
+        return c['val']
+
+    def exts(self, h):
+        return [(self.cells[r]['code'], self.shown(r)) for r in self.hdrs[h]['refs']]
+
+    def needed(self, h):
+        return HDR_SIZE[self.hdrs[h]['fmt']] + 4 + sum(need_size(len(b)) for _, b in self.exts(h))
+
+    def convert(self, h, cls):
+        src = self.hdrs[h]
+        fmt, kind = XST_CLASSES[cls]
+        if kind == 's' and 0 < src['off'] < {1: 352, 2: 544}[fmt]:
+            return None
+        same = src['cls'] == cls
+        return {'cls': cls, 'fmt': fmt, 'kind': kind, 'endian': src['endian'] if same else NATIVE,
+                'off': src['off'], 'refs': list(src['refs']), 'img': False}
+
+    def layout(self, h):
+        """(vox_offset, bytes after the header block of the header file) or None when the save must be refused"""
+        hd = self.hdrs[h]
+        exts = self.exts(h)
+        recs = ser_bytes(hd['endian'], exts)
+        if hd['kind'] == 's':
+            need = self.needed(h)
+            if hd['off'] and hd['off'] < need:
+                return None
+            vox = hd['off'] or need
+            return vox, (b'\x01\0\0\0' if exts else bytes(4)) + recs + bytes(vox - need)
+        return hd['off'], (b'\x01\0\0\0' + recs if exts else b'')
+
+    def apply(self, op):
+        k = op[0]
+        if k == 'nh':
+            fmt, kind = XST_CLASSES[op[1]]
+            self.hdrs.append({'cls': op[1], 'fmt': fmt, 'kind': kind, 'endian': {'L': '<', 'B': '>'}[op[2]], 'off': 0,
+                              'refs': [], 'img': False})
+            return 'ok'
+        if k in ('nr', 'no'):
+            self.cells.append({'codec': op[3], 'code': int(op[4]), 'kind': 'raw' if k == 'nr' else 'obj',
+                               'val': unhx(op[5])})
+            self.hdrs[op[1]]['refs'].insert(op[2], len(self.cells) - 1)
+            return 'ok'
+        if k in ('go', 'ed', 'ea', 'ct', 'sz'):
+            r = self.hdrs[op[1]]['refs'][op[2]]
+            if k == 'go':
+                return 'o=' + hx(self.to_obj(r))
+            if k == 'ed':
+                self.to_obj(r)
+                self.cells[r]['val'] = unhx(op[3])
+                return 'ok'
+            if k == 'ea':
+                self.cells[r]['val'] = bytes(self.to_obj(r)) + unhx(op[3])
+                return 'ok'
+            if k == 'ct':
+                return 'b=' + hx(self.shown(r))
+            return 'n=%d' % need_size(len(self.shown(r)))
+        if k == 'tt':
+            return 'n=%d' % sum(need_size(len(b)) for _, b in self.exts(op[1]))
+        if k == 'dl':
+            del self.hdrs[op[1]]['refs'][op[2]]
+            return 'ok'
+        if k == 'sh':
+            self.hdrs[op[3]]['refs'].insert(op[4], self.hdrs[op[1]]['refs'][op[2]])
+            return 'ok'
+        if k == 'cp':
+            self.hdrs.append(dict(self.hdrs[op[1]], refs=list(self.hdrs[op[1]]['refs']), img=False))
+            return 'ok'
+        if k in ('fh', 'im'):
+            n = self.convert(op[1], op[2])
+            if n is None:
+                return 'ERR:HeaderDataError'
+            if k == 'im':
+                n['off'], n['img'] = 0, True
+            self.hdrs.append(n)
+            return 'ok'
+        if k == 'so':
+            self.hdrs[op[1]]['off'] = op[2]
+            return 'ok'
+        if k == 'wh':
+            lay = self.layout(op[1])
+            if lay is None:
+                return 'ERR:HeaderDataError'
+            hd = self.hdrs[op[1]]
+            if hd['kind'] == 's':
+                hd['off'] = lay[0]                  # header.write_to leaves the offset it chose in the field
+                return f'H off={lay[0]} hdr={hx(lay[1][:4 + sum(need_size(len(b)) for _, b in self.exts(op[1]))])}'
+            return f'H off={lay[0]} hdr={hx(lay[1])}'
+        if k == 'wi':
+            lay = self.layout(op[1])
+            if lay is None:
+                return 'ERR:HeaderDataError'
+            hd = self.hdrs[op[1]]
+            data = unhx(op[2])
+            strip = [(c, b.rstrip(b'\x00')) for c, b in self.exts(op[1])]
+            rd = f' R exts={_ext_list(strip)} off={lay[0]} data={hx(data)}'
+            if hd['kind'] == 's':
+                return f'W off={lay[0]} hdr={hx(lay[1] + data)} img=-' + rd
+            return f'W off={lay[0]} hdr={hx(lay[1])} img={hx(bytes(lay[0]) + data)}' + rd
+        raise ValueError(op)
+
+
+def oracle_xst(case, out):
+    """every content / size / save observation of the history is the one of the reference semantics: an extension
+    shows (and a save writes, with room for it before the data) the value it has AT THAT MOMENT, whatever was
+    read, edited, copied or converted before"""
+    d = case.data
+    got = out.split(' | ')
+    if len(got) != len(d['ops']):
+        return None if out.startswith('ERR') and len(got) == 1 else f'history produced {len(got)} observations for {len(d["ops"])} operations'
+    ref = XRef(unhx(d['data']))
+    for i, (op, g) in enumerate(zip(d['ops'], got)):
+        exp = ref.apply(op)
+        if g == exp:
+            continue
+        if op[0] in XRef.PROPERTY_OPS:
+            what = {'ct': 'content shown', 'sz': 'size on disk', 'tt': 'total size on disk',
+                    'wh': 'header + extensions written', 'wi': 'image saved / loaded back'}[op[0]]
+            return (f'step {i} ({",".join(map(str, op))}): {what} is {g[:160]} but the current values of the extensions '
+                    f'give {exp[:160]}; history: {" ".join(",".join(map(str, o)) for o in d["ops"][:i + 1])}')
+        return None          # the history itself went differently (not a statement of the property): correspondence
+    return None
+
+
 def oracle(case, out):
     d = case.data
+    if d['op'] == 'xst':
+        return oracle_xst(case, out)
     if d['op'] == 'voff':
         return oracle_voff(case, out)
     if d['op'] in ('f32', 'f32n'):
@@ -1004,6 +1550,9 @@ def oracle(case, out):
 
 def signature(case, what):
     d = case.data
+    if d['op'] == 'xst':
+        kinds = sorted({op[0] for op in d['ops']} & {'ed', 'ea', 'go', 'cp', 'fh', 'im', 'sh', 'wh', 'wi', 'so', 'no'})
+        return 'niftiext:history+' + '+'.join(kinds)
     if d['op'] == 'voff':
         need = HDR_SIZE[d['fmt']] + 4 + sum(need_size(n) for n in d['lens'])
         return ('niftiext:voff+' + ('single' if d['kind'] == 's' else 'pair') + '+nifti%d' % d['fmt'] +
@@ -1022,8 +1571,44 @@ def signature(case, what):
     return 'niftiext:' + '+'.join(parts)
 
 
+def _xst_valid(ops):
+    """a history is usable when every index it mentions exists at that point of the reference run"""
+    ref = XRef()
+    try:
+        for op in ops:
+            k = op[0]
+            if k in ('nr', 'no') and not 0 <= op[2] <= len(ref.hdrs[op[1]]['refs']):
+                return False
+            if k in ('go', 'ed', 'ea', 'ct', 'sz', 'dl') and not 0 <= op[2] < len(ref.hdrs[op[1]]['refs']):
+                return False
+            if k == 'sh' and not (0 <= op[2] < len(ref.hdrs[op[1]]['refs']) and 0 <= op[4] <= len(ref.hdrs[op[3]]['refs'])):
+                return False
+            if k == 'wi' and not ref.hdrs[op[1]]['img']:
+                return False
+            if k != 'nh' and not 0 <= op[1] < len(ref.hdrs):
+                return False
+            ref.apply(op)
+    except (IndexError, KeyError):
+        return False
+    return True
+
+
 def shrink_candidates(case):
     d = case.data
+    if d['op'] == 'xst':
+        ops = d['ops']
+        for i in range(len(ops) - 1, -1, -1):
+            cand = ops[:i] + ops[i + 1:]
+            if cand and _xst_valid(cand):
+                yield mk_xst(cand, d['data'])
+        for i, op in enumerate(ops):
+            if op[0] in ('nr', 'no', 'ed', 'ea') and len(unhx(op[-1])) > 1:
+                b = unhx(op[-1])
+                for nb in (b[:len(b) // 2], b[:-1]):
+                    cand = ops[:i] + [op[:-1] + [hx(nb)]] + ops[i + 1:]
+                    if _xst_valid(cand):
+                        yield mk_xst(cand, d['data'])
+        return
     if d['op'] != 'img':
         return
     if d.get('hist'):
@@ -1348,9 +1933,91 @@ def rand_voff_case(rng):
     return mk_voff(fmt, kind, off, lens)
 
 
+def rand_xst_case(rng):
+    """a history: headers of the four NIfTI classes / both byte orders, extensions built from bytes or from a runtime
+    object (three codecs), content reads, size queries, in-place edits that cross 16-byte borders, header copies,
+    conversions to other classes, images made from headers, shared extension objects, explicit offsets, header-level
+    and image-level saves (several per object)"""
+    ref = XRef()
+    ops = []
+    classes = sorted(XST_CLASSES)
+
+    def emit(op):
+        ops.append(op)
+        ref.apply(op)
+
+    def blob(lo=0, hi=40):
+        n = rng.choice([0, 1, 7, 8, 9, 23, 24, 25]) if rng.random() < 0.2 else rng.randrange(lo, hi + 1)
+        b = bytearray(rng.choice([32, 32, 10, 0, 65, 66, 200, rng.randrange(1, 256)]) for _ in range(n))
+        return hx(bytes(b))
+
+    emit(['nh', rng.choice(classes), rng.choice('LB')])
+    if rng.random() < 0.25:
+        emit(['nh', rng.choice(classes), rng.choice('LB')])
+    for _ in range(rng.randrange(1, 4)):
+        h = rng.randrange(len(ref.hdrs))
+        emit([rng.choice(['nr', 'nr', 'no']), h, rng.randrange(len(ref.hdrs[h]['refs']) + 1), rng.choice([0, 0, 1, 2]),
+              rng.choice([4, 6, 32, 40, 44, 99, 9998, -7, 65536]), blob()])
+    for _ in range(rng.randrange(4, 22)):
+        h = rng.randrange(len(ref.hdrs))
+        hd = ref.hdrs[h]
+        n = len(hd['refs'])
+        r = rng.random()
+        if r < 0.08:
+            emit([rng.choice(['nr', 'no']), h, rng.randrange(n + 1), rng.choice([0, 1, 2]),
+                  rng.choice([4, 6, 32, 40, 44, 99, 9998, -7]), blob()])
+        elif r < 0.30 and n:
+            i = rng.randrange(n)
+            if rng.random() < 0.5:
+                emit(['ea', h, i, hx(bytes(rng.randrange(1, 256) for _ in range(rng.choice([1, 3, 8, 15, 16, 17, 33]))))])
+            else:
+                emit(['ed', h, i, blob(0, 60)])
+        elif r < 0.42 and n:
+            emit([rng.choice(['go', 'ct', 'sz']), h, rng.randrange(n)])
+        elif r < 0.46:
+            emit(['tt', h])
+        elif r < 0.50 and n:
+            emit(['dl', h, rng.randrange(n)])
+        elif r < 0.54 and n:
+            h2 = rng.randrange(len(ref.hdrs))
+            emit(['sh', h, rng.randrange(n), h2, rng.randrange(len(ref.hdrs[h2]['refs']) + 1)])
+        elif r < 0.60:
+            emit(['cp', h])
+        elif r < 0.68:
+            emit(['fh', h, rng.choice(classes)])
+        elif r < 0.80:
+            emit(['im', h, rng.choice(classes + [hd['cls']])])
+        elif r < 0.86:
+            need = ref.needed(h)
+            emit(['so', h, rng.choice([0, 0, need, need + 16, need + 32, need + 48, max(need - 16, 1), need + 5, 7, 352, 544,
+                                        16, 400, 1024])])
+        elif r < 0.92:
+            emit(['wh', h])
+        else:
+            imgs = [j for j, x in enumerate(ref.hdrs) if x['img']]
+            if imgs:
+                emit(['wi', rng.choice(imgs), '0102030405'])
+    # finish with a save of every image (twice for one of them, with an edit in between) and of one bare header
+    imgs = [j for j, x in enumerate(ref.hdrs) if x['img']]
+    if not imgs:
+        h = rng.randrange(len(ref.hdrs))
+        emit(['im', h, rng.choice(classes)])
+        if ref.hdrs[-1]['img']:
+            imgs = [len(ref.hdrs) - 1]
+    for j in imgs[-2:]:
+        emit(['wi', j, '0102030405'])
+        if ref.hdrs[j]['refs'] and rng.random() < 0.6:
+            emit(['ea', j, rng.randrange(len(ref.hdrs[j]['refs'])), hx(bytes(rng.randrange(1, 256) for _ in range(rng.choice([1, 9, 16, 30]))))])
+            emit(['wi', j, '0102030405'])
+    emit(['wh', rng.randrange(len(ref.hdrs))])
+    return mk_xst(ops)
+
+
 def cases(rng, tier):
     table = _codes_table()
     out = []
+    for _ in range({'quick': 1200, 'thorough': 20000, 'search': 4000}[tier]):
+        out.append(rand_xst_case(rng))
     # ---- the vox_offset field: float32 rounding / successor, and the offset rule on sizes alone (no bytes)
     for n in (0, 1, 2 ** 24 - 1, 2 ** 24, 2 ** 24 + 1, 2 ** 24 + 2, 2 ** 24 + 3, 2 ** 28 - 16, 2 ** 28, 2 ** 28 + 16,
               2 ** 28 + 48, 268435856, 268435840, 268435872, 2 ** 31, 2 ** 32 + 2 ** 8, 2 ** 32 + 2 ** 8 + 1):
